@@ -90,6 +90,15 @@ Proof. intros s0 ops. apply bids_allowed_run. Qed.
 Print Assumptions C10_invariant.
 
 (* ---------------------------------------------------------------- examples *)
+(* Histories: whatever users send (creations, cancellations, bids, modifications, parameter updates, plain bank sends),
+   whatever blocks pass and whatever listeners are registered, in any number and order, the allow-list stays exactly
+   what the auctioneer-side API made it.  No hypothesis on the state, none on the switch: the only message that could
+   write to the list is MsgAddAllowedBidder itself (C10_gate covers it). *)
+Theorem C10_users_never_change_the_list : forall ops s,
+  Forall user_op ops -> st_allowed (run s ops) = st_allowed s.
+Proof. exact allowed_frame_run. Qed.
+Print Assumptions C10_users_never_change_the_list.
+
 Definition ex0 : state :=
   {| st_params := {| p_cfee := [(0%N, 5)]; p_bfee := [(0%N, 1)]; p_period := 1 |};
      st_auctions := []; st_bids := []; st_allowed := []; st_vqs := [];
@@ -120,3 +129,8 @@ Example ex_invariant_reached :
   /\ find_allowed (run ex2 [ex_bid; OBlock 200 []; OGenesis]) 1 8
      = Some {| al_auction := 1; al_bidder := 8; al_max := 500 |}.
 Proof. vm_compute. split; reflexivity. Qed.
+Example ex_history_keeps_list :
+  Forall user_op [ex_bid; OBlock 200 []; OSend 8 (User 9) 2 5; OSetListeners [[1%N]]]
+  /\ st_allowed (run ex2 [ex_bid; OBlock 200 []; OSend 8 (User 9) 2 5; OSetListeners [[1%N]]]) = st_allowed ex2
+  /\ st_allowed ex2 <> [].
+Proof. split; [repeat constructor|]. split; [vm_compute; reflexivity|vm_compute; discriminate]. Qed.
